@@ -18,8 +18,9 @@
 (*   - a stopped sequence reports 'stopped while <step>' (step still repeating)   *)
 (*     or 'stopped after <step>' (ERROR if fault_on_stop else WARN),              *)
 (*   - when the thread is done it polls the module: the cached status leaves BUSY.*)
-(*   - when no sequence is alive and the last one neither failed nor was stopped, the status is    *)
-(*     what the module's hook returns (docstring: _ext_state(); the code calls readHwStatus()).   *)
+(*   - when no sequence is alive and the last one neither failed nor was stopped,  *)
+(*     the status is what the module's hook returns (the class docstring names    *)
+(*     _ext_state(); the code calls readHwStatus()).                              *)
 (* Loose (not promised): the status text before the first step is active and      *)
 (* between a wait and the next call; whether a stop that arrives during the wait  *)
 (* after the very last call is still reported; whether cleanup runs when a stop   *)
